@@ -1002,9 +1002,23 @@ class Server(utils.EventEmitter):
             and attribute.handle <= request.ending_handle
             and pdu_space_available
         ):
-            # No need to catch permission errors here, since these attributes
-            # must all be world-readable
-            attribute_value = await attribute.read_value(bearer)
+            # These attributes are normally world-readable, but an application may
+            # have restricted a declaration: the first one decides (an error), a later
+            # one ends the list
+            try:
+                attribute_value = await attribute.read_value(bearer)
+            except att.ATT_Error as error:
+                if not attributes:
+                    self.send_response(
+                        bearer,
+                        att.ATT_Error_Response(
+                            request_opcode_in_error=request.op_code,
+                            attribute_handle_in_error=attribute.handle,
+                            error_code=error.error_code,
+                        ),
+                    )
+                    return
+                break
             # Check the attribute value size
             max_attribute_size = min(bearer.att_mtu - 6, 251)
             if len(attribute_value) > max_attribute_size:
